@@ -294,7 +294,8 @@ ObsSinglesConform ==
 (*   alias       equal entries of the grid list are ONE object              *)
 (*   retv, fshv  what the vectorised integrand returns (array type; values  *)
 (*               v / 2^fshv);  retp, fshp the same for point-by-point       *)
-(*   call        keywords, positional, numpy scalars for the options        *)
+(*   call        keywords, positional, numpy scalars for the options (the   *)
+(*               constructor is called in the same style)                   *)
 (*   first       "enum": enumeration before the integrals, "int": after     *)
 (*   chunks      the chunk sizes tried (two drawn from 1..total+1 and Huge) *)
 (* The law: every observation is the one of the base form, up to the known  *)
